@@ -498,6 +498,11 @@ def run_job(proj, job, workdir, tier='quick', seed=0, only_property=None, noslic
     a_gb = os.path.join(workdir, sub + '.a.gb')
     b_gb = os.path.join(workdir, sub + '.b.gb')
     timeout = job.timeout or (120 if tier == 'quick' else 1800)
+    # The per-job budgets in jobs.py were measured with 12 solver processes on 16 cores; quick-tier jobs get three times that budget so that a
+    # loaded machine does not turn a proof into 'undecided' (some sub-jobs needed 90% of the nominal budget).  The nominal value stays in the
+    # cache key; thorough-tier jobs keep their nominal budget (they are allowed to run out of it).
+    if getattr(job, 'tier', 'quick') == 'quick' and tier == 'quick':
+        timeout = int(timeout * float(os.environ.get('VERIF_TIMEOUT_FACTOR', '3')))
     cmd = ['goto-cc', '-Wall', '-Werror', '--function', b['entry'], '-I', os.path.join(VERIF, 'shim'), '-I', os.path.join(VERIF, 'contracts')]
     cmd += ['-D' + d for d in job.defines] + job.extra_cflags + [tu_path, '-o', a_gb]
     rc, out, err, _ = run_cmd(cmd, 120)
